@@ -1307,7 +1307,9 @@ where
                         )
                         .await?;
 
-                        if !server.in_transaction() {
+                        // A COPY that has just started is not a finished transaction yet: it is
+                        // counted when CopyDone/CopyFail has been answered.
+                        if !server.in_transaction() && !server.in_copy_mode() {
                             // Report transaction executed statistics.
                             self.stats.transaction();
                             server
@@ -1316,7 +1318,7 @@ where
 
                             // Release server back to the pool if we are in transaction mode.
                             // If we are in session mode, we keep the server until the client disconnects.
-                            if self.transaction_mode && !server.in_copy_mode() {
+                            if self.transaction_mode {
                                 self.stats.idle();
 
                                 break;
@@ -1564,7 +1566,7 @@ where
 
                         self.buffer.clear();
 
-                        if !server.in_transaction() {
+                        if !server.in_transaction() && !server.in_copy_mode() {
                             self.stats.transaction();
                             server
                                 .stats()
@@ -1572,7 +1574,7 @@ where
 
                             // Release server back to the pool if we are in transaction mode.
                             // If we are in session mode, we keep the server until the client disconnects.
-                            if self.transaction_mode && !server.in_copy_mode() {
+                            if self.transaction_mode {
                                 break;
                             }
                         }
